@@ -126,11 +126,15 @@ class Facts:
             if getattr(self, "normalize", True) and not os.environ.get("VERIF_NO_NORMALIZE"):
                 from vlib import normalize
                 sys.path.insert(0, os.path.join(VERIF, "rules")) if os.path.join(VERIF, "rules") not in sys.path else None
-                for fn in data.get("functions", []):
-                    try:
-                        normalize.norm_function(fn)
-                    except RecursionError:
-                        pass
+                normalize.LIGHT[0] = bool(getattr(self, "light_only", False))
+                try:
+                    for fn in data.get("functions", []):
+                        try:
+                            normalize.norm_function(fn)
+                        except RecursionError:
+                            pass
+                finally:
+                    normalize.LIGHT[0] = False
             self._loaded[name] = data
         return self._loaded[name]
 
@@ -145,6 +149,21 @@ class Facts:
             r._raw = r
             self._raw = r
         return self._raw
+
+    def light(self):
+        """the facts with only the loop canonicalisations applied (while / for / index / iterator loops in one form): the view of
+        the byte-level abstract interpreters A1 / A2, whose trip-count reasoning needs the loop forms but which were validated on
+        expressions and branches exactly as written"""
+        if getattr(self, "_light", None) is None:
+            import copy
+            r = copy.copy(self)
+            r._loaded = {}
+            r.normalize = True
+            r.light_only = True
+            r._raw = None
+            r._light = r
+            self._light = r
+        return self._light
 
     def functions(self, names=None):
         """All exported function instances of the given drivers (default: all but bitpack)."""
